@@ -1,6 +1,7 @@
 import SkgVerif.Lemmas.Scale
 import SkgVerif.Lemmas.Relabel
 import SkgVerif.Lemmas.CressieReal
+import SkgVerif.Props.Transcribed.C10
 /-!
 # C10 — the experimental variogram has the invariances of its definition
 
